@@ -47,7 +47,10 @@ Full statement / proved / missing
   `C09_hash_dup_get` / `C09_hash_dup_includes` (lookups answer exactly what the specification's literal
   answers: the later value), `C09_hash_dup_views` (Keys/Values/Len/At show every entry), `C09_hash_dup_delete`
   (Delete removes only the last of the equal keys).
-* Array: `C09_arr_*` — add/addAll/delete/deleteAll/slice/unique as functions on immutable sequences.
+* Array, for ANY history over a pool of arrays: `C09_arr_refine` (the loops of the implementation model — `px.Reject`,
+  the index loop of `AddAll`, the `exists` map of `Unique`, the stepping loop of `EachSlice`, `Slice` bounds — answer what
+  the sequence specification answers), `C09_arr_immutable` (no array of the pool ever changes); what the specification
+  is: `C09_arr_spec_unique`, `C09_arr_spec_chunks`, `C09_arr_spec_slice`, `C09_arr_sort`, `C09_arr_flatten` — proved.
 * missing: value equality itself (`px.ToKey` respects `Equals`: property C07 — here `key` is an abstract
   function into a type with decidable equality); that operations do not share backing storage (C08);
   `Array.Slice` beyond the length but within the capacity (Go allows it; outside the property).
@@ -270,55 +273,62 @@ example : ((Hash.wrap [(1, 10), (2, 20), (1, 30)] : Hash Nat Nat Nat).get id 1).
 
 end hash
 
-/-! ## types.Array: the operations as functions on immutable sequences -/
+/-! ## types.Array: an immutable sequence -/
 section arr
-variable {α κ : Type} [DecidableEq κ] (key : α → κ)
+variable {α κ : Type} [DecidableEq κ] (key : α → κ) (le : α → α → Bool)
 
-/-- `Add` keeps every element where it was and puts the new one at the end -/
-theorem C09_arr_add (a : List α) (v : α) (i : Nat) :
-    Arr.atIdx (Arr.add a v) i = if i < a.length then Arr.atIdx a i else if i = a.length then some v else none := by
-  simp only [Arr.atIdx, Arr.add, List.getElem?_append]
-  by_cases h : i < a.length
-  · simp [h]
-  · by_cases h2 : i = a.length
-    · simp [h2]
-    · have : i - a.length ≠ 0 := by omega
-      simp [h, h2]
-      omega
+/-- for ANY history over a pool of arrays (literal, add, addAll, delete, deleteAll, slice, unique, sort, eachSlice,
+    at, len, find, view) the loops of the implementation model answer what the sequence specification answers and
+    leave the same pool behind -/
+theorem C09_arr_refine (pool : List (List α)) (ops : List (AOp α)) :
+    runAImpl key le pool ops = runASpec key le pool ops := runAImpl_eq key le pool ops
 
-theorem C09_arr_addAll (a b : List α) (i : Nat) :
-    Arr.atIdx (Arr.addAll a b) i = if i < a.length then Arr.atIdx a i else Arr.atIdx b (i - a.length) := by
-  simp only [Arr.atIdx, Arr.addAll, List.getElem?_append]
+/-- immutability: whatever the history, every array that was in the pool is still there, unchanged -/
+theorem C09_arr_immutable (pool : List (List α)) (ops : List (AOp α)) (i : Nat) (hi : i < pool.length) :
+    (runAImpl key le pool ops).2[i]? = pool[i]? := by
+  rw [C09_arr_refine]
+  obtain ⟨t, ht⟩ := runASpec_prefix key le pool ops
+  rw [← ht, List.getElem?_append_left hi]
 
-/-- `Delete` removes exactly the elements equal to the argument and keeps the order of the others -/
-theorem C09_arr_delete (a : List α) (v e : α) :
-    (e ∈ Arr.delete key a v ↔ e ∈ a ∧ key e ≠ key v) ∧ (Arr.delete key a v).Sublist a := by
-  simp [Arr.delete, List.mem_filter]
+/-- what the specification's `unique` is: the first of every group of equal elements, in order -/
+theorem C09_arr_spec_unique (a : List α) :
+    ((ASpec.firsts key a).map key).Nodup ∧ (ASpec.firsts key a).Sublist a ∧
+      ∀ e ∈ a, key e ∈ (ASpec.firsts key a).map key := ASpec.firsts_spec key a
 
-theorem C09_arr_deleteAll (a b : List α) (e : α) :
-    (e ∈ Arr.deleteAll key a b ↔ e ∈ a ∧ key e ∉ b.map key) ∧ (Arr.deleteAll key a b).Sublist a := by
-  simp [Arr.deleteAll, List.mem_filter]
+omit [DecidableEq κ] in
+/-- what the specification's `eachSlice n` is: non-empty pieces of at most `n` elements whose concatenation is the array -/
+theorem C09_arr_spec_chunks (n : Nat) (hn : 0 < n) (a : List α) :
+    (ASpec.chunks n a).flatten = a ∧ ∀ c ∈ ASpec.chunks n a, 0 < c.length ∧ c.length ≤ n := ASpec.chunks_spec n hn a
 
-/-- `Slice(i, j)` within the bounds of the value is the sub-sequence of positions i … j-1 -/
-theorem C09_arr_slice (a : List α) (i j : Nat) (h : i ≤ j ∧ j ≤ a.length) :
-    ∃ s, Arr.slice a i j = some s ∧ s.length = j - i ∧ ∀ n, n < j - i → Arr.atIdx s n = Arr.atIdx a (i + n) := by
-  refine ⟨(a.drop i).take (j - i), by simp [Arr.slice, h], ?_, ?_⟩
-  · simp; omega
-  · intro n hn
-    simp [Arr.atIdx, List.getElem?_take, hn]
+omit [DecidableEq κ] in
+/-- what the specification's `slice i j` is: the elements at positions i … j-1 -/
+theorem C09_arr_spec_slice (a : List α) (i j : Nat) (h : i ≤ j ∧ j ≤ a.length) :
+    (ASpec.slice a i j).length = j - i ∧ ∀ n, n < j - i → (ASpec.slice a i j)[n]? = a[i + n]? := ASpec.slice_spec a i j h
 
-/-- `Unique` keeps the first of every group of equal elements, in order -/
-theorem C09_arr_unique (a : List α) :
-    ((Arr.unique key a).map key).Nodup ∧ (Arr.unique key a).Sublist a ∧
-      ∀ e ∈ a, key e ∈ (Arr.unique key a).map key := by
-  obtain ⟨h1, _, h3, h4⟩ := Arr.uniqueFrom_spec key a []
-  exact ⟨h1, h3, fun e he => by simpa [Arr.unique] using h4 e he⟩
+omit [DecidableEq κ] in
+/-- `Sort` with a total, transitive comparator: a sorted permutation -/
+theorem C09_arr_sort (a : List α) (htot : ∀ x y, le x y || le y x) (htrans : ∀ x y z, le x y → le y z → le x z) :
+    (Arr.sort le a).Perm a ∧ (Arr.sort le a).Pairwise (fun x y => le x y) :=
+  ⟨List.mergeSort_perm a le, List.pairwise_mergeSort htrans htot a⟩
 
-example : Arr.unique id [1, 2, 1, 3, 2] = [1, 2, 3] ∧ Arr.delete id [1, 2, 1, 3] 1 = [2, 3] ∧
-    Arr.slice [1, 2, 3, 4] 1 3 = some [2, 3] ∧ Arr.slice [1, 2] 1 3 = none := by decide
+/-- `Flatten`: no array is left among the elements, and an array without nested arrays is unchanged -/
+theorem C09_arr_flatten (vs : List AVal) :
+    (∀ x ∈ AVal.flats vs, x.isArr = false) ∧ AVal.flats (AVal.flats vs) = AVal.flats vs :=
+  ⟨AVal.flats_noArr vs, AVal.flats_of_noArr _ (AVal.flats_noArr vs)⟩
+
+def arrWitness : List (AOp Nat) :=
+  [.lit [3, 1, 3, 2], .add 0 1, .unique 1, .view 2, .delete 1 3, .view 3, .eachSlice 1 2, .slice 0 1 3,
+   .view 4, .slice 0 3 9, .eachSlice 0 0, .at 0 (-1), .at 0 3, .addAll 2 4, .view 5, .deleteAll 5 4, .view 6, .view 0]
+example : (runAImpl id (fun x y => decide (x ≤ y)) [] arrWitness).1 =
+    [.made, .made, .made, .elems [3, 1, 2], .made, .elems [1, 2, 1],
+     .chunks [[3, 1], [3, 2], [1]], .made, .elems [1, 3], .fault, .illegal, .got none, .got (some 2), .made,
+     .elems [3, 1, 2, 1, 3], .made, .elems [2], .elems [3, 1, 3, 2]] := by decide
+example : Arr.sort (fun x y => decide (x ≤ y)) [3, 1, 3, 2] = [1, 2, 3, 3] := by
+  simp [Arr.sort, List.mergeSort, List.MergeSort.Internal.splitInTwo]
+example : AVal.flats [.leaf "1", .arr [.leaf "2", .arr [.leaf "3"], .arr []], .leaf "4"] =
+    [.leaf "1", .leaf "2", .leaf "3", .leaf "4"] := by simp [AVal.flats, AVal.flat]
 
 end arr
-
 
 /-- FULL statements (every literal included) -/
 def C09_hash_refine_full : Prop :=
